@@ -3,7 +3,7 @@
    Instantiated for the little-endian host the implementation is executed on
    (helpers = the little-endian branch of Byteorder.h as generated). *)
 From Coq Require Import List NArith Bool String.
-From O1722 Require Import Bits CExpr Host FieldModel AccModel LegacyModel Spec CanModel.
+From O1722 Require Import Bits CExpr Host FieldModel AccModel LegacyModel Spec Paths CanModel VssModel VssSpec.
 From O1722.Generated Require Import Byteorder Tables.
 Import ListNotations.
 Local Open Scope N_scope.
@@ -129,3 +129,40 @@ Definition m_can_payload_length (b:buf) : cout :=
 Definition s_can_create (brief:bool) (b:buf) (id:N) (payload:list N) (variant:N) : cout :=
   let r := can_ref (canf brief) b id payload variant in
   if snd r <=? blen b then CB (fst r) (snd r) else CUnmod.
+
+(* ---- ACF-VSS ---- *)
+Definition m_ldw := Host.ldw hostE helpers_LE.
+Definition m_stw := Host.stw hostE helpers_LE.
+Definition of_outb (o:outcome buf) : res := match o with Ok b => RBuf (Some b) | OOB _ => ROob | Unmodelled => RUnmod end.
+Definition m_vss_pad (b:buf) (n:N) : res := of_outb (vss_pad m_ldq m_stq b n).
+Definition m_vss_calc (b:buf) : res := of_outN (vss_calc_path_len m_ldw m_ldq m_stq b).
+Definition m_vss_set_path (b:buf) (p:vpath) : res := of_outb (vss_set_path m_stw m_ldq m_stq b p).
+Definition m_vss_get_path (b:buf) (cap:N) : outcome gpath := vss_get_path m_ldw m_ldq m_stq b cap.
+Definition m_vss_set_data (b:buf) (d:vdata) : res := of_outb (vss_set_data m_ldw m_stw m_ldq m_stq b d).
+Definition m_vss_get_data (b:buf) (dst:option N) : outcome gdata := vss_get_data m_ldw m_ldq m_stq b dst.
+Definition m_strs_pack (strs:list (N * list N)) (num:N) (out:buf) : outcome (N * buf) := strs_pack m_stw strs num out.
+Definition m_strs_count (dl:N) (data:buf) : outcome N := strs_count m_ldw dl data.
+Definition m_strs_unpack (dl:N) (data:buf) (dsts:list (option N)) (num:N) := strs_unpack m_ldw dl data dsts num.
+
+(* reference side *)
+Definition s_vss_pad (b:buf) (n:N) : res :=
+  if (12 <=? n) && (n + (4 - n mod 4) mod 4 <=? blen b) then RBuf (Some (vss_pad_ref b n)) else RUnmod.
+Definition s_vss_set_path (b:buf) (p:rpath) : res :=
+  if (hdr_mode b =? path_mode p) && (12 + N.of_nat (List.length (enc_path p)) <=? blen b)
+  then RBuf (Some (upd b 12 (enc_path p))) else RUnmod.
+Definition rdata_fits (dt:N) (d:rdata) : bool :=
+  match d with
+  | RScalar w _ => Nat.eqb w (scalar_width dt) && negb (Nat.eqb w 0)
+  | RBytes _ => match vss_kind dt with KB => true | _ => false end
+  | RElems w _ => Nat.eqb w (elem_width dt) && negb (Nat.eqb w 0)
+  | RStrings _ => dt =? 0x8B
+  end.
+Definition s_vss_set_data (b:buf) (d:rdata) : res :=
+  let a := 12 + dec_path_len b in
+  if rdata_fits (hdr_datatype b) d && (a + N.of_nat (List.length (enc_data d)) <=? blen b)
+  then RBuf (Some (upd b a (enc_data d))) else RUnmod.
+Definition s_vss_calc (b:buf) : res := RVal (dec_path_len b).
+Definition s_vss_get_path (b:buf) : option rpath := dec_path b.
+Definition s_vss_get_data (b:buf) : option rdata := dec_data b.
+Definition s_strs_pack (strs:list (list N)) : N * list N := (N.of_nat (List.length (enc_strings strs)), enc_strings strs).
+Definition s_strs_unpack (dl:N) (data:list N) : list (list N) := dec_strings (N.to_nat dl) (firstn (N.to_nat dl) data).
